@@ -30,7 +30,7 @@ impl<'a> Visitor for V<'a> {
                 return Err(format!("{d}: size() = {} but the encoding has {} bytes", post.size, post.enc.len()));
             }
         }
-        if matches!(cx.fam(), FamId::Var | FamId::Wide | FamId::Tiny | FamId::Mid | FamId::Nano | FamId::Big | FamId::Clash) {
+        if matches!(cx.fam(), FamId::Var | FamId::Wide | FamId::Tiny | FamId::Mid | FamId::Nano | FamId::Big | FamId::Clash | FamId::Null) {
             return Ok(()); // exact refusal is claimed for 64-byte signatures only
         }
         if let Some(op) = cx.op {
@@ -272,7 +272,7 @@ impl Property for C09 {
                 })
             })
         });
-        let ex = [FamId::K256, FamId::Var].into_iter().flat_map(move |f| history::exhaustive(f, if quick { 1 } else { 2 })).chain(history::depth1_rest(&[FamId::K256, FamId::Var])).chain(history::long_repeats(quick)).map(Case::Hist);
+        let ex = [FamId::K256, FamId::Var].into_iter().flat_map(move |f| history::exhaustive(f, if quick { 1 } else { 2 })).chain(history::depth1_rest(&[FamId::K256, FamId::Var])).chain(history::long_repeats(quick)).chain(history::many_pairs(quick)).chain(history::near_limit_sockets(quick)).map(Case::Hist);
         // custom scheme with long signatures: every signature length class 64..=322 through the builder
         // (tiny content: the outer header grows by two bytes once the signature is included) and one update
         let wide = (0..37u8).flat_map(|u| {
@@ -311,7 +311,23 @@ impl Property for C09 {
             }
             v.into_iter()
         });
-        Box::new(it.chain(cross).chain(ex).chain(wide).chain(mid))
+        // correctly signed records of every size 295..=310 and around / beyond the points where the outer
+        // header grows (256 bytes, 64 KiB, 16 MiB), handed to the decoder
+        let big_sizes: Vec<usize> = (150..=190).chain([30, 60, 65_380, 65_400, 65_420, 65_600, 70_000, 200_000]).chain(if quick { vec![] } else { vec![16_777_000, 16_777_300] }).collect();
+        let big = big_sizes.into_iter().flat_map(|n| {
+            (0..2u64).map(move |j| {
+                let e = crate::choices::det_entropy("c09/big", j, 400);
+                let mut c = Choices::new(&e);
+                let mut d = crate::gen::wire::gen_valid_draft(&mut c);
+                d.kv.retain(|(k, _)| {
+                    let kp = rlp::decode_exact(k).ok().and_then(|i| i.as_str().map(|s| s.to_vec())).unwrap_or_default();
+                    kp == b"id" || kp == d.scheme.key_name()
+                });
+                d.set(b"zz", rlp::encode_str(&vec![0x7a; n]));
+                Case::Wire(crate::cases::WireCase { bytes: crate::gen::wire::valid_bytes(&d), label: format!("signed-with-filler-{n}"), has_custom: true })
+            })
+        });
+        Box::new(it.chain(cross).chain(ex).chain(wide).chain(mid).chain(big))
     }
     fn fuzz_plans(&self) -> Vec<(&'static str, u64)> {
         vec![("history", 10000)]
@@ -322,6 +338,25 @@ impl Property for C09 {
     fn check(&self, case: &Case, st: &mut Stats) -> Result<(), String> {
         let h = match case {
             Case::Hist(h) => h,
+            Case::Wire(w) => {
+                // "no record returned by ... the decoder encodes to more than 300 bytes", size() exact
+                for kt in crate::refmodel::record::key_types_in_order(crate::case::case_hash(&w.bytes)) {
+                    st.evals(1);
+                    if let crate::libio::LibOut::Ok(s, n) = crate::libio::decode(kt, &w.bytes) {
+                        if s.enc.len() > 300 || n > 300 {
+                            return Err(format!("[{kt:?}] decode returns a record of {} bytes (consumed {n}); generated as {}", s.enc.len(), w.label));
+                        }
+                        if s.size != s.enc.len() {
+                            return Err(format!("[{kt:?}] size() = {} but the decoded record encodes to {} bytes", s.size, s.enc.len()));
+                        }
+                        if w.bytes.len() >= 290 {
+                            st.nontrivial(&(kt, &w.bytes));
+                        }
+                    }
+                }
+                st.label(if w.bytes.len() > 300 { "wire:gt300" } else { "wire:le300" });
+                return Ok(());
+            }
             _ => return Err("C09: wrong case type".into()),
         };
         if h.keys.is_empty() {
